@@ -28,6 +28,7 @@ type hookEvent struct {
 	N      int     `json:"n"`
 	Syntax int     `json:"syntax"`
 	Failed bool    `json:"failed"`
+	Days   int     `json:"days"`
 }
 
 func readHookTrace(path string) ([]hookEvent, error) {
@@ -73,6 +74,12 @@ func buildPipelineCase(sc c19Scenario, exit int, timedOut bool, stderr string, e
 		cs["crash"] = true
 	}
 	byRun := map[int][]hookEvent{}
+	type procInfo struct {
+		of, days   int
+		start, end bool
+		failed     bool
+	}
+	info := map[int]*procInfo{}
 	var runIDs []int
 	started, done, failedFiles, synOK, synConv, modConv, modAdded := 0, 0, 0, 0, 0, 0, 0
 	for _, e := range evs {
@@ -82,6 +89,16 @@ func buildPipelineCase(sc c19Scenario, exit int, timedOut bool, stderr string, e
 				runIDs = append(runIDs, e.Run)
 			}
 			byRun[e.Run] = append(byRun[e.Run], e)
+		case "ProcessStart":
+			if _, ok := byRun[e.Run]; !ok {
+				runIDs = append(runIDs, e.Run)
+				byRun[e.Run] = nil
+			}
+			info[e.Run] = &procInfo{of: e.Of, days: e.Days, start: true}
+		case "ProcessEnd":
+			if pi := info[e.Run]; pi != nil {
+				pi.end, pi.failed = true, e.Failed
+			}
 		case "FileStart":
 			started++
 		case "FileDone":
@@ -121,7 +138,11 @@ func buildPipelineCase(sc c19Scenario, exit int, timedOut bool, stderr string, e
 			ev = append(ev, map[string]any{"s": e.Stage, "d": idx[e.Day], "err": e.Err != nil, "ntrx": len(e.Trx)})
 			of = e.Of
 		}
-		runs = append(runs, map[string]any{"of": of, "nd": len(days), "ev": ev})
+		run := map[string]any{"of": of, "nd": len(days), "ev": ev, "days": len(days), "failed": false, "complete": false}
+		if pi := info[r]; pi != nil {
+			run["of"], run["days"], run["failed"], run["complete"] = pi.of, pi.days, pi.failed, pi.start && pi.end
+		}
+		runs = append(runs, run)
 	}
 	cs["runs"] = runs
 	cs["started"], cs["done"], cs["failedFiles"] = started, done, failedFiles
@@ -144,7 +165,51 @@ func runC19(c *core.Ctx, bin, root string, sc c19Scenario) map[string]any {
 	}
 	cs := buildPipelineCase(sc, r.Exit, r.TimedOut, r.Stderr, evs)
 	cs["stderr"] = tailStr(r.Stderr, 3000)
+	cs["stepsOK"], cs["steps"] = true, ""
 	return cs
+}
+
+// stepRunsOf extracts the complete Process calls of a case for step-by-step validation.
+func stepRunsOf(cs map[string]any) []stepRun {
+	var out []stepRun
+	if cs["timedOut"] == true {
+		return nil
+	}
+	for i, r := range cs["runs"].([]any) {
+		m := r.(map[string]any)
+		if m["complete"] != true {
+			continue
+		}
+		var ev []map[string]any
+		for _, e := range m["ev"].([]any) {
+			em := e.(map[string]any)
+			ev = append(ev, map[string]any{"s": em["s"], "d": em["d"], "err": em["err"]})
+		}
+		if ev == nil {
+			ev = []map[string]any{}
+		}
+		out = append(out, stepRun{Case: cs["id"].(int), Idx: i, Of: m["of"].(int), Days: m["days"].(int), Failed: m["failed"].(bool), Ev: ev})
+	}
+	return out
+}
+
+// applySteps validates the runs of the given cases against Pipeline.tla and records the verdicts in them.
+func applySteps(c *core.Ctx, cases []map[string]any) int {
+	var all []stepRun
+	for _, cs := range cases {
+		all = append(all, stepRunsOf(cs)...)
+	}
+	v := validateSteps(c, all)
+	for _, cs := range cases {
+		cs["stepsOK"], cs["steps"] = true, ""
+		for i := range cs["runs"].([]any) {
+			if msg, bad := v[[2]int{cs["id"].(int), i}]; bad {
+				cs["stepsOK"], cs["steps"] = false, fmt.Sprintf("Process call %d: %s", i+1, msg)
+				break
+			}
+		}
+	}
+	return len(all)
 }
 
 func C19(c *core.Ctx) {
@@ -249,6 +314,44 @@ func C19(c *core.Ctx) {
 	}
 	cases := make([]map[string]any, len(scs))
 	core.Parallel(len(scs), func(i int) { cases[i] = runC19(c, bin, root, scs[i]) })
+	c.Add("process_calls_validated_step_by_step", applySteps(c, cases))
+	// the binding is not vacuous: corrupted copies of an accepted recorded run must be rejected
+	for _, cs := range cases {
+		rs := stepRunsOf(cs)
+		if cs["stepsOK"] != true || len(rs) == 0 || len(rs[0].Ev) < 6 || rs[0].Failed || rs[0].Of < 2 {
+			continue
+		}
+		base := rs[0]
+		mut := func(idx int, f func(ev []map[string]any) ([]map[string]any, bool)) stepRun {
+			ev, failed := f(append([]map[string]any(nil), base.Ev...))
+			return stepRun{Case: -idx, Idx: 0, Of: base.Of, Days: base.Days, Failed: failed, Ev: ev}
+		}
+		muts := []stepRun{
+			mut(1, func(ev []map[string]any) ([]map[string]any, bool) { return append(ev[:2:2], ev[3:]...), false }), // a logged step removed
+			mut(2, func(ev []map[string]any) ([]map[string]any, bool) { return ev, true }),                           // result flipped
+			mut(3, func(ev []map[string]any) ([]map[string]any, bool) { return append(ev, ev[len(ev)-1]), false }),   // a step duplicated
+			mut(4, func(ev []map[string]any) ([]map[string]any, bool) { // the last stage runs before the first on the first day
+				k := -1
+				for i, e := range ev {
+					if e["s"] == base.Of && e["d"] == 1 {
+						k = i
+					}
+				}
+				if k > 0 {
+					ev[0], ev[k] = ev[k], ev[0]
+				}
+				return ev, false
+			}),
+		}
+		v := validateSteps(c, muts)
+		for _, m := range muts {
+			if _, rejected := v[[2]int{m.Case, 0}]; !rejected {
+				c.Infra("step validation accepted corrupted run %d of case %v: the trace specification does not constrain the run", -m.Case, cs["id"])
+			}
+		}
+		c.Add("corrupted_runs_rejected", len(v))
+		break
+	}
 	nt := 0
 	for _, cs := range cases {
 		inter := false
@@ -269,13 +372,17 @@ func C19(c *core.Ctx) {
 	c.Add("distinct_nontrivial", nt)
 	c.Sample(map[string]any{"argv": cases[0]["argv"], "variant": cases[0]["variant"], "procs": cases[0]["procs"], "runs": cases[0]["runs"], "files": cases[0]["files"], "exit": cases[0]["exit"]})
 	c.JudgeAndReport("Trace_Pipeline", "Trace_Pipeline.cfg", cases, 16,
-		func(old map[string]any) map[string]any { return runC19(c, bin, root, scs[old["id"].(int)-1]) },
+		func(old map[string]any) map[string]any {
+			cs := runC19(c, bin, root, scs[old["id"].(int)-1])
+			applySteps(c, []map[string]any{cs})
+			return cs
+		},
 		func(cs map[string]any) (string, string) {
 			lay := scs[cs["id"].(int)-1].Layout
 			var fl strings.Builder
 			for _, p := range lay.Order {
 				fmt.Fprintf(&fl, "==> %s\n%s\n", p, lay.Files[p])
 			}
-			return "pipeline:" + fmt.Sprint(cs["why"]), fmt.Sprintf("knut %v (variant %v, GOMAXPROCS=%v, sched seed %v): %v\nexit=%v\nstderr:\n%v\nfiles:\n%s", cs["argv"], cs["variant"], cs["procs"], cs["seed"], cs["why"], cs["exit"], cs["stderr"], fl.String())
+			return "pipeline:" + fmt.Sprint(cs["why"]), fmt.Sprintf("knut %v (variant %v, GOMAXPROCS=%v, sched seed %v): %v\n%v\nexit=%v\nruns: %v\nstderr:\n%v\nfiles:\n%s", cs["argv"], cs["variant"], cs["procs"], cs["seed"], cs["why"], cs["steps"], cs["exit"], cs["runs"], cs["stderr"], fl.String())
 		})
 }
